@@ -14,7 +14,7 @@
 //!          c             (kind T only) old_orphans_count()       -> n<count>
 //!   kind T (timed): after the final state `K=<lo>.<hi>,…`: clock readings (ns since the case started)
 //!          taken before and after every `o` and `c` operation, in order
-//! End-to-end and reader kinds (P, R, X, G, O) are produced by ../c02_e2e.rs.
+//! End-to-end and reader kinds (P, R, N, S, X, K, G, O) are produced by ../c02_e2e.rs.
 //! final    H=sid:rid:tok,…  into_handlers (sorted)   W=idx:word,…  non-zero bitmap words
 //!          R=rid:sid,…  request_to_stream   O=sid,…  orphanage keys   B=len(by_orphaning_times)
 //!          L=len(bitmap)
@@ -612,6 +612,7 @@ fn main() {
         par.push(format!("X {} 32768 {} {} {} {} {}", r.below(1 << 30), r.range(1, 6), old, young, r.range(1100, 1400), 2600));
     }
     par.push(format!("G {} {} {}", r.below(1 << 30), r.range(2, 12), e2e::BIG));
+    par.push(format!("G {} {} {}", r.below(1 << 30), r.range(2, 12), (256u64 << 20) + r.range(100, 200000)));
     if thorough {
         for _ in 0..5 {
             par.push(format!("G {} {} {}", r.below(1 << 30), r.range(2, 40), (256u64 << 20) + r.range(100, 200000)));
@@ -646,11 +647,11 @@ fn main() {
         let n = if k % 2 == 0 { 2000 } else { r.range(50, 2000) };
         par.push(format!("N {} {} {}", r.below(1 << 30), n, r.range(1, 3)));
     }
-    // S: submit storm, every caller aborted within 3 ms while 2000 submissions race for the channel
+    // S: submit storm, up to 900 callers aborted within 3 ms while 1500-2000 submissions race for the channel
     for _ in 0..(if thorough { 60 } else { 8 }) {
         par.push(format!("S {} {}", r.below(1 << 30), r.range(1500, 2000)));
     }
-    let ks: Vec<u64> = if thorough { vec![1025, 1024, 1100, 1000, 1026, 1023, 1500, 30, 1025, 1024] } else { vec![1025, 1024, 1200] };
+    let ks: Vec<u64> = if thorough { vec![1025, 1024, 1100, 1000, 1026, 1023, 1500, 30, 1025, 1024] } else { vec![1025, 1024, 1200, 1000, 1020] };
     for (i, a) in ks.iter().enumerate() {
         // put them early: they take `hold` seconds
         par.insert(i.min(par.len()), format!("K {} {} {} 4500", r.below(1 << 30), a, r.range(1, 60)));
